@@ -49,7 +49,8 @@ class Interp:
             kernel.stream(scenario.get('run_seed', 0), 'sched'),
             scenario.get('run_seed', 0) & 0xffff, self.trace)
         self.saved_default = d.default_loop
-        self.loop = d.SimpleLoop(self.read_clock)
+        self.clock_gen = 0
+        self.loop = d.SimpleLoop(self.make_clock(0))
         self.own_loop = bool(self.cfg.get('own_loop'))
         if self.own_loop:
             # the simulated loop is NOT the default one; the default loop
@@ -593,6 +594,23 @@ class Interp:
         self.crash_obj = e
         raise e
 
+    def make_clock(self, gen):
+        """The loop's time function; the program may install another one
+        while the loop runs (`loop.time_function = ...`): from then on the
+        one that was replaced is not the loop's clock any more."""
+        def clock():
+            if gen != self.clock_gen:
+                self.fail('C14', 'stale_clock', f'the loop read a time '
+                          f'function that was replaced (generation {gen}, '
+                          f'current {self.clock_gen}) in frame {self.frame}')
+            return self.read_clock()
+        return clock
+
+    def sop_swap_clock(self, op, inst):
+        self.clock_gen += 1
+        self.loop.time_function = self.make_clock(self.clock_gen)
+        self.probes['time_function_replaced_while_running'] += 1
+
     def sop_probe(self, op, inst):
         _, h, token = op
         if self.terminal:
@@ -1069,6 +1087,8 @@ def gen_script(prop, rng, cfg, key, state):
     if prop == 'C14' and rng.random() < (
             .15 if actor.endswith('on_switch_in') else .02):
         return [['loop_switch', rng.randrange(nw)]]
+    if prop == 'C14' and not special and rng.random() < .04:
+        ops.append(['swap_clock'])
     if rng.random() < .35:
         state['token'] += 1
         ops.append(['probe', rng.randrange(nw), state['token']])
